@@ -282,6 +282,53 @@ func refDecode(s string) (any, error) {
 	return v, nil
 }
 
+// decodeFirstWins reads a document like refDecode but keeps the FIRST of duplicate keys; it is used
+// only to give the "wrong duplicate wins" failure one signature instead of one per value shape.
+func decodeFirstWins(s string) (any, error) {
+	dec := json.NewDecoder(strings.NewReader(s))
+	dec.UseNumber()
+	return readFirstWins(dec)
+}
+
+func readFirstWins(dec *json.Decoder) (any, error) {
+	tok, err := dec.Token()
+	if err != nil {
+		return nil, err
+	}
+	d, isDelim := tok.(json.Delim)
+	if !isDelim {
+		return tok, nil
+	}
+	if d == '[' {
+		arr := []any{}
+		for dec.More() {
+			v, err := readFirstWins(dec)
+			if err != nil {
+				return nil, err
+			}
+			arr = append(arr, v)
+		}
+		_, err = dec.Token()
+		return arr, err
+	}
+	m := map[string]any{}
+	for dec.More() {
+		k, err := dec.Token()
+		if err != nil {
+			return nil, err
+		}
+		v, err := readFirstWins(dec)
+		if err != nil {
+			return nil, err
+		}
+		if _, seen := m[k.(string)]; !seen {
+			m[k.(string)] = v
+		}
+	}
+	_, err = dec.Token()
+	return m, err
+}
+
 // parseNumberLiteral reads a JSON number literal as coefficient x 10^exponent.
 func parseNumberLiteral(s string) (*big.Int, int32, bool) {
 	mant, exp := s, int64(0)
@@ -425,28 +472,29 @@ func jsonDiff(exp, got any, out *[]string) {
 		}
 	case map[string]any:
 		g := got.(map[string]any)
-		loneKey := false
+		// a lone-surrogate key that went missing stops the reader: it explains every missing member
+		truncated := false
 		var missing []string
 		for k := range e {
-			if strings.ContainsRune(k, utf8.RuneError) {
-				loneKey = true
-			}
 			if _, ok := g[k]; !ok {
 				missing = append(missing, k)
+				if strings.ContainsRune(k, utf8.RuneError) {
+					truncated = true
+				}
 			}
 		}
 		sort.Strings(missing)
-		if loneKey && len(missing) > 0 {
+		if truncated {
 			add("lone-surrogate-key-truncates-object")
 		} else {
 			for _, k := range missing {
 				switch {
-				case k == "__default__":
-					add("default-key-dropped")
 				case isLoneSurrogateString(e[k]):
 					add("lone-surrogate-string-lost")
+				case k == "__default__":
+					add("default-key-dropped")
 				default:
-					add("member-dropped:key=" + keyClass(k) + ":value=" + strings.SplitN(typeClass(e[k]), "/", 2)[0])
+					add("member-dropped:value=" + typeClass(e[k]))
 				}
 			}
 		}
@@ -517,6 +565,12 @@ func evalJSON(c *mc.Ctx, es *envSpec, doc string, n *node) (string, []problem) {
 			return "json:ok:identical-text", nil
 		}
 		return "json:ok:equivalent", nil
+	}
+	if fw, err := decodeFirstWins(doc); err == nil && !reflect.DeepEqual(fw, exp) {
+		var fwDiffs []string
+		if jsonDiff(fw, got, &fwDiffs); len(fwDiffs) == 0 {
+			return "json:not-equivalent", []problem{{"json:duplicate-key-first-wins", fmt.Sprintf("%s: json(parse_json(doc)) = %s keeps the first of the duplicate keys, not the last", id, outText.Native())}}
+		}
 	}
 	var ps []problem
 	seen := map[string]bool{}
